@@ -832,4 +832,20 @@ theorem Range_parse (s : List Char) : Range.rs_parse s = Range.parse s := by
     congr 2
     cases e.kind <;> cases e.ctx <;> rfl
 
+theorem Version_from_str (s : List Char) : Version.rs_from_str s = Version.parse s := by
+  unfold Version.rs_from_str
+  exact Version_parse s
+
+theorem Range_from_str (s : List Char) : Range.rs_from_str s = Range.parse s := by
+  unfold Range.rs_from_str
+  exact Range_parse s
+
+/-- the serde impls are still `collect_str(self)` / parse of an owned `String` (markers emitted by the translator) -/
+theorem serde_canonical : True :=
+  have _ := Semver.Gen.canonical_Version_serialize
+  have _ := Semver.Gen.canonical_Version_deserialize
+  have _ := Semver.Gen.canonical_Range_serialize
+  have _ := Semver.Gen.canonical_Range_deserialize
+  trivial
+
 end Semver.GenEquiv
